@@ -13,6 +13,14 @@ def run(pid, repo, work):
     if not os.path.exists(mj):
         return []
     ms = [m for m in json.load(open(mj)) if pid in m.get("expect", [])]
+    # independently seeded changes for this property (patches)
+    sd = os.path.join(VERIF, "seeded")
+    if os.path.isdir(sd):
+        for n in sorted(os.listdir(sd)):
+            meta = os.path.join(sd, n, "meta.json")
+            pf = os.path.join(sd, n, "patch.diff")
+            if os.path.exists(meta) and os.path.exists(pf) and json.load(open(meta)).get("property") == pid:
+                ms.append({"name": "seed:" + n, "patch": pf, "expect": [pid]})
     if not ms:
         return []
     out = os.path.join(VERIF, ".work", "thorough-%s.json" % pid)
